@@ -62,6 +62,13 @@ pub struct Res {
     pub err: ErrP,
     /// what the convenience accessors of a whole-packet result report (vlan(), vlan_ids(), ether_payload(), ip_payload(), ...)
     pub conv: Value,
+    /// kinds of the layers whose to_header() / to_packet() conversion does not hold the values the slice accessors report (C04)
+    pub tohdr: Vec<String>,
+}
+fn th(r: &mut Res, k: &str, same: bool) {
+    if !same && !r.tohdr.iter().any(|x| x == k) {
+        r.tohdr.push(k.to_string());
+    }
 }
 pub fn no_conv() -> Value {
     json!({"has": 0, "vlan_ids": [], "vlan": [], "epay": no_pay(), "ipay": no_pay(), "pet": -2, "frag": -2, "mism": []})
@@ -85,13 +92,13 @@ fn vlan_hdr_ids(v: &Option<VlanHeader>) -> Option<(i64, i64, i64)> {
 }
 impl Res {
     pub fn new() -> Res {
-        Res { v: "ok", layers: vec![], pay: no_pay(), err: ErrP::none(), conv: no_conv() }
+        Res { v: "ok", layers: vec![], pay: no_pay(), err: ErrP::none(), conv: no_conv(), tohdr: vec![] }
     }
     pub fn err(e: ErrP) -> Res {
-        Res { v: "err", layers: vec![], pay: no_pay(), err: e, conv: no_conv() }
+        Res { v: "err", layers: vec![], pay: no_pay(), err: e, conv: no_conv(), tohdr: vec![] }
     }
     pub fn json(&self, ctx: &Ctx) -> Value {
-        json!({"v": self.v, "layers": self.layers, "pay": self.pay, "err": self.err.json(), "oob": ctx.oob.get(), "conv": self.conv})
+        json!({"v": self.v, "layers": self.layers, "pay": self.pay, "err": self.err.json(), "oob": ctx.oob.get(), "conv": self.conv, "tohdr": self.tohdr})
     }
 }
 
@@ -362,12 +369,14 @@ pub fn link_layer(ctx: &Ctx, r: &mut Res, l: &LinkSlice, lax: bool) {
                 ctx.oob.set(ctx.oob.get() + 1000);
             }
             r.layers.push(layer(ctx, "eth", e.header_slice_compat(), f_eth(e), p.clone()));
+            th(r, "eth", f_eth_h(&e.to_header()) == f_eth(e));
             r.pay = p;
         }
         LinkSlice::LinuxSll(s) => {
             let sp = s.payload();
             let p = sll_pay(ctx, &sp);
             r.layers.push(layer(ctx, "sll", &s.slice()[..16.min(s.slice().len())], f_sll(s), p.clone()));
+            th(r, "sll", f_sll_h(&s.to_header()) == f_sll(s));
             r.pay = match sp.protocol_type {
                 LinuxSllProtocolType::EtherType(et) => pay(ctx, "ether", sp.payload, "Slice", et.0 as i64, -1, if lax { 0 } else { -1 }),
                 _ => p,
@@ -401,11 +410,13 @@ pub fn transport_layer(ctx: &Ctx, r: &mut Res, t: &TransportSlice, inc: i64) {
         TransportSlice::Udp(u) => {
             let p = pay(ctx, "udp", u.payload(), "any", -1, -1, inc);
             r.layers.push(layer(ctx, "udp", u.header_slice(), f_udp(u), p.clone()));
+            th(r, "udp", f_udp_h(&u.to_header()) == f_udp(u));
             r.pay = p;
         }
         TransportSlice::Tcp(t) => {
             let p = pay(ctx, "tcp", t.payload(), "any", -1, -1, inc);
             r.layers.push(layer(ctx, "tcp", t.header_slice(), f_tcp(t), p.clone()));
+            th(r, "tcp", f_tcp_h(&t.to_header()) == f_tcp(t));
             r.pay = p;
         }
         TransportSlice::Icmpv4(t) => {
@@ -425,13 +436,16 @@ pub fn transport_layer(ctx: &Ctx, r: &mut Res, t: &TransportSlice, inc: i64) {
 
 pub fn ipv4_layers(ctx: &Ctx, r: &mut Res, h: &Ipv4HeaderSlice, exts: &Ipv4ExtensionsSlice, p: Value) {
     r.layers.push(layer(ctx, "ipv4", h.slice(), f_ipv4(h), p.clone()));
+    th(r, "ipv4", f_ipv4_h(&h.to_header()) == f_ipv4(h));
     if let Some(a) = &exts.auth {
         r.layers.push(layer(ctx, "auth", a.slice(), f_auth(a), no_pay()));
+        th(r, "auth", f_auth_h(&a.to_header()) == f_auth(&a));
     }
     r.pay = p;
 }
 pub fn ipv6_layers(ctx: &Ctx, r: &mut Res, h: &Ipv6HeaderSlice, exts: &Ipv6ExtensionsSlice, p: Value) {
     r.layers.push(layer(ctx, "ipv6", h.slice(), f_ipv6(h), p.clone()));
+    th(r, "ipv6", f_ipv6_h(&h.to_header()) == f_ipv6(h));
     if !exts.is_empty() {
         r.layers.push(layer(ctx, "exts", exts.slice(), f_exts(ctx, exts), no_pay()));
     }
@@ -448,6 +462,7 @@ pub fn sliced(ctx: &Ctx, p: &SlicedPacket) -> Res {
             LinkExtSlice::Vlan(v) => {
                 let q = ether_pay(ctx, &v.payload());
                 r.layers.push(layer(ctx, "vlan", &v.slice()[..4.min(v.slice().len())], f_vlan(v), q.clone()));
+                th(&mut r, "vlan", f_vlan_h(&v.to_header()) == f_vlan(v));
                 r.pay = q;
             }
             LinkExtSlice::Macsec(m) => {
@@ -456,6 +471,7 @@ pub fn sliced(ctx: &Ctx, p: &SlicedPacket) -> Res {
                     MacsecPayloadSlice::Modified(s) => pay(ctx, "macsecmod", s, "any", -1, -1, -1),
                 };
                 r.layers.push(layer(ctx, "macsec", m.header.slice(), f_macsec(&m.header), q.clone()));
+                th(&mut r, "macsec", f_macsec_h(&m.header.to_header()) == f_macsec(&m.header));
                 r.pay = q;
             }
         }
@@ -465,6 +481,7 @@ pub fn sliced(ctx: &Ctx, p: &SlicedPacket) -> Res {
         Some(NetSlice::Ipv6(i)) => ipv6_layers(ctx, &mut r, &i.header(), i.extensions(), ip_pay(ctx, i.payload())),
         Some(NetSlice::Arp(a)) => {
             r.layers.push(layer(ctx, "arp", a.slice(), f_arp(a), no_pay()));
+            th(&mut r, "arp", f_arp_h(&a.to_packet()) == f_arp(a));
             r.pay = no_pay();
         }
         None => {}
@@ -491,6 +508,7 @@ pub fn lax_sliced(ctx: &Ctx, p: &LaxSlicedPacket) -> Res {
                 let mut q = ether_pay(ctx, &v.payload());
                 q["inc"] = json!(0);
                 r.layers.push(layer(ctx, "vlan", &v.slice()[..4.min(v.slice().len())], f_vlan(v), q.clone()));
+                th(&mut r, "vlan", f_vlan_h(&v.to_header()) == f_vlan(v));
                 r.pay = q;
             }
             LaxLinkExtSlice::Macsec(m) => {
@@ -499,6 +517,7 @@ pub fn lax_sliced(ctx: &Ctx, p: &LaxSlicedPacket) -> Res {
                     LaxMacsecPayloadSlice::Modified { incomplete, payload } => pay(ctx, "macsecmod", payload, "any", -1, -1, b2i(*incomplete)),
                 };
                 r.layers.push(layer(ctx, "macsec", m.header.slice(), f_macsec(&m.header), q.clone()));
+                th(&mut r, "macsec", f_macsec_h(&m.header.to_header()) == f_macsec(&m.header));
                 r.pay = q;
             }
         }
@@ -515,6 +534,7 @@ pub fn lax_sliced(ctx: &Ctx, p: &LaxSlicedPacket) -> Res {
         }
         Some(LaxNetSlice::Arp(a)) => {
             r.layers.push(layer(ctx, "arp", a.slice(), f_arp(a), no_pay()));
+            th(&mut r, "arp", f_arp_h(&a.to_packet()) == f_arp(a));
             r.pay = no_pay();
         }
         None => {}
